@@ -142,6 +142,30 @@ func authKinds(as []verifiable.Authentication) []string {
 	return out
 }
 
+// authRefs: what Authentication.DID() reports per entry ("" for an embedded method)
+func authRefs(as []verifiable.Authentication) []string {
+	var out []string
+	for i := range as {
+		out = append(out, as[i].DID())
+	}
+	return out
+}
+
+// wantRefs: the reference strings of a list as written in the document ("" for objects)
+func wantRefs(doc *Node, key string) []string {
+	var out []string
+	if l := doc.Get(key); l != nil && l.K == 'a' {
+		for _, e := range l.A {
+			if e.K == 's' {
+				out = append(out, e.S)
+			} else {
+				out = append(out, "")
+			}
+		}
+	}
+	return out
+}
+
 func (d *drv) runDID(raw []byte) (*obs, *verifiable.DIDDocument) {
 	o := &obs{}
 	var doc verifiable.DIDDocument
@@ -436,6 +460,20 @@ func (d *drv) didCase(in *Input, rep *common.Report) *caseRec {
 	}
 	if !deepEq(reflect.ValueOf(dd).Elem(), reflect.ValueOf(&d2).Elem()) {
 		rep.Fail("c14-did-roundtrip-unequal", "decode(encode(d)) differs from d", in)
+	}
+	// Authentication.DID(): the reference as written in the document, "" for an embedded
+	// method, before and after the round trip
+	for _, l := range []struct {
+		key    string
+		a1, a2 []verifiable.Authentication
+	}{{"assertionMethod", dd.AssertionMethod, d2.AssertionMethod}, {"authentication", dd.Authentication, d2.Authentication}} {
+		want := strings.Join(wantRefs(doc, l.key), "|")
+		if got := strings.Join(authRefs(l.a1), "|"); got != want {
+			rep.Fail("c14-did-auth-reference", fmt.Sprintf("%s: DID() of the entries = %q, the document says %q", l.key, got, want), in)
+		}
+		if got := strings.Join(authRefs(l.a2), "|"); got != want {
+			rep.Fail("c14-did-auth-kind-changed", fmt.Sprintf("%s: DID() of the entries after the round trip = %q, the document says %q", l.key, got, want), in)
+		}
 	}
 	enc2, err := json.Marshal(&d2)
 	if err != nil || string(enc2) != string(o.enc.Bytes()) {
